@@ -58,14 +58,34 @@ def prefix_alternatives(g):
     return doc, insts, "prefix-alternatives-%d" % kind
 
 
+def nested_any_order(g):
+    """`$and_any_order[X, $and_any_order[Y, Z]]`: the inner group stays together (X Y Z, X Z Y, Y Z X, Z Y X), the outer
+    child never sits between the inner ones - the operator is not associative"""
+    import itertools
+    if g.chance(0.5):
+        x, y, z = g.r.sample(["mov", "add", "nop", "push", "pop", "xor"], 3)
+        order = list(g.pick(list(itertools.permutations([x, y, z]))))
+        inner = {"$and_any_order": [y, z]}
+        kids = [x, inner] if g.chance(0.5) else [inner, x]
+        doc = {"pattern": ["ret", {"$and_any_order": kids}, "leave"]}
+        insts = [("1000", "ret", [])] + [("%x" % (0x1001 + i), mn, ["%rax"]) for i, mn in enumerate(order)] + [("1009", "leave", [])]
+        return doc, insts, "nested-any-order-inst"
+    x, y, z = g.r.sample(["%xmm0", "%xmm1", "%xmm2", "%rax", "%rbx"], 3)
+    order = list(g.pick(list(itertools.permutations([x, y, z]))))
+    inner = {"$and_any_order": [y.lstrip("%"), z.lstrip("%")]}
+    kids = [x.lstrip("%"), inner] if g.chance(0.5) else [inner, x.lstrip("%")]
+    doc = {"pattern": [{"vfmadd231ss": [{"$and_any_order": kids}]}]}
+    return doc, [("1000", "vfmadd231ss", order), ("1005", "ret", [])], "nested-any-order-operand"
+
+
 def run(ctx, factor):
     ctx.report.rule = ("random nestings (depth <= 3) of $or/$and/$and_any_order at instruction level, operand "
                        "level and inside $deref fields; listings realise one alternative / one ordering, then one "
                        "perturbation; verdict and all-matches texts vs the specification; plus the or-split "
                        "metamorphic check on the implementation; non-trivial = reached the specification comparison")
     rep = ctx.report
-    for _ in range(ctx.budget(40, 1500) * factor):
-        doc, insts, tag = prefix_alternatives(ctx.g)
+    for it in range(ctx.budget(60, 2500) * factor):
+        doc, insts, tag = prefix_alternatives(ctx.g) if it % 3 else nested_any_order(ctx.g)
         o = patdiff.observe(ctx, doc, insts, modes=("bool", "all", "first"))
         usable = patdiff.correspondence(ctx, o)
         if usable:
